@@ -48,7 +48,7 @@ def _apply(v: Variant) -> dict[str, str] | None:
 def run_variant(v: Variant) -> dict:
     from sa import check
 
-    overlay = _apply(v)
+    overlay = _seed_overlay(v) if isinstance(v, SeedVariant) else _apply(v)
     if overlay is None:
         return {"name": v.name, "status": "stale"}
     try:
@@ -67,12 +67,55 @@ def run_variant(v: Variant) -> dict:
     return {"name": v.name, "status": "ok" if ok else "FAIL", "exit": code, "rules": rules, "expect": v.expect, "first": first}
 
 
-def load_variants(prop: str) -> list[Variant]:
+@dataclass
+class SeedVariant:
+    """A stored seeded change (seeded/<name>/patch.diff, written by an independent sub-agent against the property text only) used as a mutant."""
+
+    prop: str
+    name: str
+    patch: str
+    expect: str | None = ""  # any rule of the property
+
+
+def _seed_overlay(v: SeedVariant) -> dict[str, str] | None:
+    import re
+    import subprocess
+    import tempfile
+
+    text = Path(v.patch).read_text(encoding="utf8")
+    files = sorted(set(re.findall(r"^\+\+\+ b/(\S+)", text, flags=re.M)) | set(re.findall(r"^--- a/(\S+)", text, flags=re.M)))
+    with tempfile.TemporaryDirectory(prefix="verif-seed-") as tmp:
+        for f in files:
+            src = REPO / f
+            if src.exists():
+                dst = Path(tmp) / f
+                dst.parent.mkdir(parents=True, exist_ok=True)
+                dst.write_text(src.read_text(encoding="utf8"), encoding="utf8")
+        r = subprocess.run(["git", "apply", "-p1", str(Path(v.patch).resolve())], cwd=tmp, capture_output=True, text=True, check=False)
+        if r.returncode != 0:
+            return None
+        return {f: (Path(tmp) / f).read_text(encoding="utf8") for f in files if (Path(tmp) / f).exists()}
+
+
+def seed_variants(prop: str) -> list[SeedVariant]:
+    root = Path(__file__).resolve().parent.parent / "seeded"
+    try:
+        not_own = json.loads((root / "NOT_OWN.json").read_text())
+    except FileNotFoundError:
+        not_own = {}
+    out = []
+    for d in sorted(root.glob(f"{prop}-m*")):
+        if (d / "patch.diff").exists() and d.name not in not_own:
+            out.append(SeedVariant(prop, f"seed {d.name}", str(d / "patch.diff")))
+    return out
+
+
+def load_variants(prop: str) -> list:
     try:
         mod = importlib.import_module(f"sa.variants.{prop}")
     except ModuleNotFoundError:
-        return []
-    return list(mod.VARIANTS)
+        return seed_variants(prop)
+    return [*mod.VARIANTS, *seed_variants(prop)]
 
 
 def run_for(prop: str, *, jobs: int | None = None, verbose: bool = True) -> int:
